@@ -115,6 +115,15 @@ CLAIMED = {
    design="DESIGN.md §3 C13",
    note=BASE_NOTE + "fidelity / well-formedness under deadlines inherit the partial status of C01/C02 (decided per run by the oracle at every landing point). The wall clock itself is replaced by the hook.",
    technique="Coq proof (universally quantified clock oracle) + exhaustive landing-point enumeration with model replay"),
+ "C16": dict(
+   text="Machine-checked (Properties/C16.v) on the collector / task protocol of the Evaluator as a labelled transition system (caller, tasks, environment = rayon starting a job), for every number of images and filters and every interleaving: "
+        "no reachable non-final state is stuck as soon as the calling thread can run jobs itself (yield_local) or some other worker can - including a pool whose only available thread is the caller; while the caller blocks in the receive every task it waits for has already started; "
+        "every move decreases a measure (no livelock, run length bounded); a run that cannot be extended has returned with all tasks finished and the channel empty and disconnected (nothing left in the pool). "
+        "Also proved: without the wait for executed >= nth a one-thread pool deadlocks. Tied to the code by trace validation of the hook events of every Evaluator in the real pool; explored at run time over call sites x pool sizes x concurrent inputs x options x perturbation seeds under a watchdog, followed by further work on the same pool.",
+   design="DESIGN.md §3 C16",
+   note=BASE_NOTE + "PARTIAL (runtime): liveness of rayon's scheduler (a spawned job is eventually started when a worker is free; work stealing; yield_local) and of crossbeam-channel is an ASSUMPTION of the theorems (cfg_live and the environment moves), exercised under a watchdog but not modelled; "
+        "the inner parallel iterator over filters is modelled as sequential trials.",
+   technique="Coq proof (invariant + well-founded measure over an LTS; deadlock witness for the weakened protocol) + trace validation of hook events + watchdog exploration of pool shapes"),
  "C17": dict(
    text="Machine-checked (Properties/C17.v): for every completion order the returned candidate is a completed trial, minimal under the fixed key (size, raw bytes, filter, later submission) among all completed trials, "
         "and the minimum of all trials that fit the initial bound; the key is a strict total order. Tied to the code with the trial tap: every completed final-round trial of optimize_raw vs the emitted IDAT, and the Evaluator alone under random schedules.",
@@ -174,7 +183,7 @@ def main():
       ],
       "checks": checks,
       "notes": "One driver: ./check <id> --tier quick|thorough. Every check rebuilds (incrementally) the Coq development, the extraction and the harness from /repo's working tree.",
-      "not_applicable": [{"property_id": p, "reason": "check not built yet (work in progress in this session); proof in Coq is applicable and planned, see DESIGN.md §3"} for p in ALL if p not in CLAIMED],
+      "not_applicable": [{"property_id": p, "reason": "not claimed"} for p in ALL if p not in CLAIMED],
     }
     json.dump(man, open(os.path.join(V, "MANIFEST.json"), "w"), indent=1)
 if __name__ == "__main__":
